@@ -98,6 +98,9 @@ def run(ctx):
     # a durable session followed by auto-commit sessions of several commits each
     runs.append(("plan7", dict(spec="GSpecSim", T=4, depth=14, deletes=True, plan=7, maxlen=1, chansets='{{"I","D","V"}}'),
                  "num=%d" % (3 if not thorough else 40), None))
+    # a durable late session, then an earlier auto-commit session whose second write runs into it (refused)
+    runs.append(("plan8", dict(spec="GSpecSim", T=4, depth=12, deletes=True, plan=8, maxlen=3, chansets='{{"I","D","V"}}'),
+                 "num=%d" % (3 if not thorough else 40), None))
     total_hist = total_images = torn = 0
     samples = []
     diverged = 0
